@@ -394,5 +394,17 @@ func Specs() map[string]*PropSpec {
 		er("x/bank/keeper", "VerifC14_AllBalancesQuery"))
 	add("C18", []string{"./rpc/backend"}, "the JSON-RPC block unwrap (EthMsgsFromTendermintBlock) over 1-2 envelopes of 1-3 messages each (the three transaction types, possibly mixed with another message): every wrapped transaction is returned, in order, with its own hash recorded",
 		er("rpc/backend", "VerifC18_BlockUnwrapsEveryMessage"))
+	// ---- thorough-only deeper instances of round 7/8 harnesses
+	deep := func(id string, bound string, in ...Inst) {
+		sp := m[id]
+		sp.Thorough = append(append([]Inst{}, sp.Thorough...), in...)
+		if t := sp.Bounds["thorough"]; t != "same" && t != "" {
+			sp.Bounds["thorough"] = t + "; " + bound
+		}
+	}
+	deep("C12", "three 32-byte accounts sharing their first 20 bytes", dk("VerifC12_Transfer", "accounts", "3", "longaddr", "2"))
+	deep("C02", "creation programs of 5 operations", sd("VerifC05_StateDB", "ops", "5", "kinds", "tnf", "addrs", "2", "amts", "1"))
+	deep("C05", "creation programs of 5 operations", sd("VerifC05_StateDB", "ops", "5", "kinds", "tnf", "addrs", "2", "amts", "1"))
+	deep("C19", "ucdao ledger over 3 accounts x 3 denominations", er("x/ucdao/keeper", "VerifC19_Ucdao", "accounts", "3", "denoms", "3"))
 	return m
 }
